@@ -46,6 +46,11 @@ fn views<T: Sc>(s: &Sparse<T>, gi: usize, gj: usize, cx: &mut Ctx) -> String {
     push_res(&mut out, guarded(|| s.to_triplets()).map(|ts| { let mut z = format!("{}", ts.len()); for (r, c, v) in ts { z.push_str(&format!(" {} {} {}", r, c, v.wr())); } z }), cx);
     push_res(&mut out, guarded(|| s.to_dense()).map(|d| wr_mat(&d)), cx);
     push_res(&mut out, guarded(|| s.col_index()).map(|c| wr_vec(&c.vec)), cx);
+    // the public inverse of the expansion: column starts recomputed from the expanded column index
+    let back = guarded(|| { let ci = s.col_index(); s.col_start_from_index(&ci) });
+    if let Ok(cs) = &back { if s.col_start.len() == s.cols + 1 && s.col_start.windows(2).all(|w| w[0] <= w[1]) && s.col_start.last() == Some(&s.nonzero) && s.col_start.first() == Some(&0) {
+        cx.check(*cs == s.col_start, "col_start_from_index(col_index()) != col_start"); } }
+    push_res(&mut out, back.map(|c| wr_vec(&c)), cx);
     out
 }
 
